@@ -17,8 +17,8 @@ RULE = (
     "that report on the file plus others). The neutral twin has the same comments spelled xsg_. oracle (all phases reported): V(tagged) is a "
     "sub-multiset of V(neutral); every violation of a rule not suppressed (reference model written from docs/code_tags.rst) on any line of its token "
     "span is present; every violation whose span lies wholly on lines where its rule is suppressed is absent; spans touching a tag line itself are "
-    "unconstrained. Fix mode: bare vsg_off on line 1 => empty report and text unchanged modulo trailing whitespace; 'vsg_off R' on line 1 => same "
-    "fixed text as the neutral twin with R disabled by configuration. non-trivial = at least one violation suppressed and one kept; distinct by "
+    "unconstrained. Fix mode: bare vsg_off on line 1 => empty report and text unchanged modulo trailing whitespace; 'vsg_off R' on line 1 => a "
+    "monitored --fix run in which no rule of R hands a violation to the write-back. non-trivial = at least one violation suppressed and one kept; distinct by "
     "hash(text, tags)"
 )
 ASSUMPTIONS = [
@@ -253,15 +253,17 @@ def _fix_relations(lines, style, rules_with, res, concrete, fail, lab, case):
         # (ii) vsg_off R on line 1 == neutral twin with R disabled by configuration
         if rules_with:
             rnd = random.Random(case.get("tseed", 1))
-            R = sorted(rnd.sample(rules_with, k=min(len(rules_with), rnd.randint(1, 3))))
+            R = case.get("R") or sorted(rnd.sample(rules_with, k=min(len(rules_with), rnd.randint(1, 3))))
+            concrete["R"] = R
             t1 = ["-- vsg_off " + " ".join(R)] + lines
-            n1 = ["-- xsg_off " + " ".join(R)] + lines
-            o1, _ = _fix(t1, style)
-            o2, _ = _fix(n1, style, {"rule": {r: {"disable": True} for r in R}})
-            lab["fix_off_R_vs_disabled"] = 1
-            if [l.replace("vsg_off", "xsg_off") for l in o1] != o2:
-                i = next((i for i, (a, b) in enumerate(zip(o1, o2)) if a.replace("vsg_off", "xsg_off") != b), min(len(o1), len(o2)))
-                fail("whole_file_tag_differs_from_disable", R[0] if len(R) == 1 else "several", {"R": R, "line": i + 1, "tagged": o1[i : i + 1], "disabled": o2[i : i + 1]})
+            from harness import engine
+
+            obs = engine.run("\n".join(t1), style, None, props=("C11",))
+            lab["fix_off_R_monitored"] = 1
+            for rid, lns in obs.get("update_log", []):
+                if rid in R:
+                    fail("tagged_rule_fixed_something", rid, {"R": R, "lines": lns[:5]})
+                    break
     except common.exceptions.ClassifyError:
         lab["fix_variant_rejected"] = 1
     except Exception:
